@@ -666,21 +666,40 @@ def python_indent(repo):
 
 
 def rename_search(repo):
-    """express.c: does the look-up behind USE/REFERENCE item lists refuse to re-enter a schema that is already being searched?"""
+    """express.c: what does the look-up behind USE/REFERENCE item lists know about the search it is part of?
+    -> "path" (refuses a schema that is on the chain of calls), "origin" (only the schema of the first call), "none" """
     t = _strip_comments(_read(repo, "src/express/express.c"))
-    m = re.search(r"static\s+void\s*\*\s*(SCOPE_?find_for_rename)\s*\(\s*Scope\s+schema\s*,\s*char\s*\*\s*name\s*,\s*struct\s+(\w+)\s*\*\s*(\w+)\s*\)\s*\{", t)
+    m = re.search(r"static\s+void\s*\*\s*(SCOPE_?find_for_rename)\s*\(\s*Scope\s+schema\s*,\s*char\s*\*\s*name\s*(?:,\s*([^)]*?)\s*)?\)\s*\{", t)
     if not m:
-        b = _body(t, r"static\s+void\s*\*\s*SCOPEfind_for_rename\s*\(\s*Scope\s+schema\s*,\s*char\s*\*\s*name\s*\)\s*\{", "SCOPEfind_for_rename")
-        if not re.search(r"LISTdo\s*\(\s*schema->u\.schema->use_schemas", b) or "SCOPEfind_for_rename( use_schema" not in b:
-            raise ValueError("SCOPEfind_for_rename: recursion over use_schemas not recognised")
-        return False
-    fn, up = m.group(1), m.group(3)
-    b = _body(t, r"static\s+void\s*\*\s*" + fn + r"\s*\(\s*Scope\s+schema\s*,\s*char\s*\*\s*name\s*,\s*struct[^)]*\)\s*\{", fn)
-    g = re.search(r"for\s*\(\s*(\w+)\s*=\s*" + up + r"\s*;\s*\1\s*;\s*\1\s*=\s*\1->up\s*\)\s*\{\s*if\s*\(\s*\1->schema\s*==\s*schema\s*\)\s*\{\s*return\s+0\s*;", b)
-    link = re.search(r"(\w+)\.schema\s*=\s*schema\s*;\s*\1\.up\s*=\s*" + up + r"\s*;", b)
-    rec = re.search(fn + r"\s*\(\s*use_schema\s*,\s*name\s*,\s*&\s*(\w+)\s*\)", b)
+        raise ValueError("SCOPEfind_for_rename: definition not found")
+    # the recursive function is the one whose body loops over use_schemas
+    cands = [mm for mm in re.finditer(r"static\s+void\s*\*\s*(SCOPE_?find_for_rename)\s*\(\s*Scope\s+schema\s*,\s*char\s*\*\s*name\s*(?:,\s*([^)]*?)\s*)?\)\s*\{", t)]
+    fn, extra, b = None, None, None
+    for mm in cands:
+        bb = _body(t[mm.start():], r"\)\s*\{", mm.group(1))
+        if re.search(r"LISTdo\s*\(\s*schema->u\.schema->use_schemas", bb):
+            fn, extra, b = mm.group(1), (mm.group(2) or "").strip(), bb
+    if fn is None or not re.search(fn + r"\s*\(\s*use_schema\s*,\s*name\b", b):
+        raise ValueError("SCOPEfind_for_rename: recursion over use_schemas not recognised")
     loop = b.find("LISTdo")
-    return bool(g and link and rec and rec.group(1) == link.group(1) and g.end() < loop and link.end() < loop)
+    ms = re.match(r"struct\s+(\w+)\s*\*\s*(\w+)$", extra)
+    if ms:
+        up = ms.group(2)
+        g = re.search(r"for\s*\(\s*(\w+)\s*=\s*" + up + r"\s*;\s*\1\s*;\s*\1\s*=\s*\1->up\s*\)\s*\{\s*if\s*\(\s*\1->schema\s*==\s*schema\s*\)\s*\{\s*return\s+0\s*;", b)
+        link = re.search(r"(\w+)\.schema\s*=\s*schema\s*;\s*\1\.up\s*=\s*" + up + r"\s*;", b)
+        rec = re.search(fn + r"\s*\(\s*use_schema\s*,\s*name\s*,\s*&\s*(\w+)\s*\)", b)
+        if g and link and rec and rec.group(1) == link.group(1) and g.end() < loop and link.end() < loop:
+            return "path"
+        return "none"
+    mo = re.match(r"Scope\s+(\w+)$", extra)
+    if mo:
+        o = mo.group(1)
+        g = re.search(r"if\s*\(\s*schema\s*==\s*" + o + r"\s*\)\s*\{\s*return\s+0\s*;", b)
+        rec = re.search(fn + r"\s*\(\s*use_schema\s*,\s*name\s*,\s*" + o + r"\s*\)", b)
+        if g and rec and g.end() < loop:
+            return "origin"
+        return "none"
+    return "none"
 
 
 def scan_buffers(repo):
@@ -1275,7 +1294,9 @@ def extract(repo):
     A("/-- exp2python `python_indent`: one fprintf per level (`.loop`) or one fwrite from an array of n tabs (`.array n`) -/")
     A(f"def pythonIndent : IndentCfg := {pyind}")
     A("/-- express.c: the rename look-up (`SCOPEfind_for_rename`) does not re-enter a schema that is already on its call chain -/")
-    A(f"def renameSearchPathGuard : Bool := {str(rs_guard).lower()}")
+    A(f"def renameSearchPathGuard : Bool := {str(rs_guard == 'path').lower()}")
+    A("/-- the same as a three-way answer: .path, .origin (only the schema the search started in) or .none -/")
+    A(f"def renameSearchGuardKind : RenameGuard := .{rs_guard}")
     A("/-- lexact.c `SCAN_buffers[SCAN_NESTING_DEPTH]` and the test in `SCANinclude_file` -/")
     A(f"def scanCfg : ScanCfg := {{ cap := {sc_cap}, guard := {_opt(sc_guard)} }}")
     A("/-- expscan.l / generated/expscan.c `open_comment[MAX_NESTED_COMMENTS]`: every store is inside `if (nesting_level < MAX_NESTED_COMMENTS)` -/")
